@@ -19,6 +19,7 @@ From NS Require Gen.G10 Model.Transpose Model.TimeOps Model.Quantize Proofs.Perm
 From NS Require Gen.G02 Model.Extract Model.Split Proofs.PermExtract.
 From NS Require Gen.G07 Model.FqCommon Model.FqMelody Model.FqDrums Model.FqChords Model.FqPianoroll
   Model.FqPerformance Proofs.PermFq.
+From NS Require Proofs.PermCompose.
 From NS Require Gen.G14 Model.Sustain Proofs.PermSustain.
 From NS Require Gen.G03 Model.TempoMap Model.MidiGlue Proofs.PermMidi.
 Import ListNotations.
@@ -210,6 +211,29 @@ Theorem perm_invariant_performance_program : forall instr ns ns', Permutation ns
   FqPerformance.pf_program_is_drum instr ns' = FqPerformance.pf_program_is_drum instr ns.
 Proof. exact F.perm_performance_program. Qed.
 Print Assumptions perm_invariant_performance_program.
+
+(** End to end: quantize_note_sequence on the sequence as stored and on a re-ordered copy, then extract.
+    Both calls raise the same error, or the quantized sequences are the same multiset and every extractor
+    returns the same object ([tsigs_agree] is discharged: the quantizer returns exactly one time signature). *)
+Theorem perm_invariant_quantize_then_extract : forall spq s s', seq_perm s s' ->
+  distinct_on tp_time (s_tempos s) -> distinct_on ts_time (s_tsigs s) ->
+  match Q.quantize_rel spq s, Q.quantize_rel spq s' with
+  | Q.Ok q, Q.Ok q' =>
+      seq_perm q q' /\
+      (forall p, FqPianoroll.pr_from_quantized p q' = FqPianoroll.pr_from_quantized p q) /\
+      (forall p, distinct_on F.qstart_pitch (s_notes q) ->
+                 FqMelody.mel_from_quantized p q' = FqMelody.mel_from_quantized p q) /\
+      (forall a b, distinct_on tx_qstep (filter F.is_chord (s_texts q)) ->
+                   FqChords.ch_from_quantized q' a b = FqChords.ch_from_quantized q a b) /\
+      (forall p, (forall spb, FqCommon.steps_per_bar q = FqCommon.Ok spb -> 0 < spb) ->
+                 F.fq_rel F.dr_rel (FqDrums.dr_from_quantized p q) (FqDrums.dr_from_quantized p q')) /\
+      (forall p, distinct_on F.start_pitch (s_notes s) ->
+                 FqPerformance.pf_from_quantized p (s_notes q') = FqPerformance.pf_from_quantized p (s_notes q))
+  | Q.Err e, Q.Err e' => e = e'
+  | _, _ => False
+  end.
+Proof. exact PermCompose.perm_quantize_then_extract. Qed.
+Print Assumptions perm_invariant_quantize_then_extract.
 
 (** * apply_sustain_control_changes.
       FULL statement, NOT proved (it needs the functional characterisation of the new end times that
